@@ -1,5 +1,8 @@
 """C18 - low-disk guard: threshold semantics are exact and monotone.
 
+0. TLC, exhaustive: DiskWatch (the running guard's loop: tick / stop / volume changes; pause state = last decision,
+   Pause and Resume balanced, a low volume is eventually paused; negative configuration: level-triggered Pause).
+   TraceC18 replays every recorded tick of the real WatchDiskSpace as DiskWatch's Tick action (SPEC-DRIFT on mismatch).
 1. TLC, exhaustive: DiskGuard grid model (unit 1 GiB, total 0..300, msr in half GiB): the code-shaped
    decision equals the statement, is monotone in free space and continuous at 256 GiB.
 2. The real checkThreshold is driven over boundary classes (256 GiB +-1/+-128 bytes, thresholds with
@@ -64,6 +67,14 @@ def run(ctx):
     if not r.ok:
         print(r.out[-2000:])
         raise vf.Inconclusive("DiskGuard grid model does not satisfy its invariants (specification error)")
+    # the running guard as a state machine (DiskWatch): pause state = last decision, Pause / Resume balanced, liveness;
+    # negative configuration: Pause on every low tick (level- instead of edge-triggered) must be rejected
+    w = ctx.tlc("DiskWatch", "C18_watch.cfg", workers=2, name="watch")
+    wn = ctx.tlc("DiskWatch", "C18_watch_level.cfg", workers=2, name="watch-neg")
+    ctx.log("running-guard model: %d states, ok=%s; level-triggered variant rejected=%s" % (w.distinct, w.ok, not wn.ok))
+    if not w.ok or wn.ok or "PauseBalanced is violated" not in wn.out:
+        print(w.out[-2000:], wn.out[-2000:])
+        raise vf.Inconclusive("DiskWatch model: the code-shaped configuration must hold and the level-triggered one must be rejected (specification error)")
     ctx.build_harness(("unit-verif", "zeno-verif"))
     tpath = os.path.join(ctx.scratch, "c18.ndjson")
     if ctx.replay:
@@ -81,6 +92,12 @@ def run(ctx):
         ctx.log("start-up decisions with the job on another volume: %d" % nst)
     events = vf.read_ndjson(tpath)
     mon = ctx.validate("C18_Mon", "C18_mon.cfg", tpath, name="mon")
+    impl = ctx.validate("TraceC18", "C18_trace.cfg", tpath, name="impl")
+    for d in impl["drift"][:20]:
+        e = events[d["l"] - 1]
+        ctx.note_drift("watch tick below=%s flag=%s paused=%s" % (e.get("below"), e.get("flag"), e.get("paused")))
+    if impl["hwm"] < impl["total"]:
+        raise vf.Inconclusive("TraceC18 stopped at line %d of %d" % (impl["hwm"], impl["total"]))
     if mon["hwm"] < mon["total"]:
         raise vf.Inconclusive("C18_Mon stopped at line %d of %d" % (mon["hwm"], mon["total"]))
     for v in mon["viols"]:
@@ -93,7 +110,7 @@ def run(ctx):
         classes[e["cls"]] = classes.get(e["cls"], 0) + 1
     distinct = len({(e["tq"], e["tr"], e["fq"], e["fr"], e["msrv"]) for e in thr})
     ctx.cov.update({
-        "states": r.distinct, "transitions": r.generated, "exhaustive": True,
+        "states": r.distinct + w.distinct, "transitions": r.generated + w.generated, "exhaustive": True,
         "traces_validated_against_impl": 1,
         "evaluations": len(events), "distinct_nontrivial": distinct,
         "rule": "decisions of the real checkThreshold / CheckDiskUsage / WatchDiskSpace; distinct = distinct (total, free, setting) triples; classes: %s" % classes,
